@@ -41,7 +41,7 @@ P = {
    text="All encodings round-trip on a boundary grid x full fractional range, ordering equals tuple order on grid pairs and random pairs, from_str on millions of generated strings (multi-byte characters at any position included) and on every character-level mutant (replace / insert / delete at every position x 11 single- and multi-byte characters) of 30 valid text forms returns Ok/Err and never panics; every oracle evaluation under catch_unwind (a library panic on a valid triple is a violation).",
    note="-", ref="§5 C10"),
  "C11": dict(cat="exploration", technique="runtime monitoring: history checker (uniqueness, per-task monotonicity, register happens-before) over concurrent Clock callers",
-   text="T tasks x M calls on the real Clock actor on current-thread and multi-thread runtimes with random yields; all stamps pairwise distinct, per-task strictly increasing, every get_time after a completed register_ts exceeds it; bursts beyond the actor's request queue, rounds that use up one logical tick (counter past the back-pressure limit), and sequences under an injected wall clock that moves on while the clock is idle.",
+   text="T tasks x M calls on the real Clock actor on current-thread and multi-thread runtimes with random yields; all stamps pairwise distinct, per-task strictly increasing, every get_time after a completed register_ts exceeds it; bursts beyond the actor's request queue, rounds that use up one logical tick (counter past the back-pressure limit), remote stamps on exactly the clock's own tick with a higher counter, and sequences under an injected wall clock that moves on while the clock is idle.",
    note="parallel interleavings are sampled", ref="§5 C11"),
  "C12": dict(cat="fault_enumeration", technique="runtime monitoring + sanitizers: frame-mutation enumeration with independent CRC/size oracle; Miri and ASan on the view path",
    text="Round trips of generated message families over real loopback HTTP/2; for each valid frame every single-bit flip, truncation and extension goes to DataView::using and as a raw POST to a live server; must-refuse decided by an independent CRC-32 and archived-size oracle; small scalar messages (alignment 1-2, odd sizes); a field-less message (zero-sized archive, frame = trailer only); messages with reference-counted fields (one pointee in two fields, the same Arc in consecutive messages serialized on one thread, recycled addresses); large frames (4 KiB..300 KiB) with bit flips concentrated where a block-wise checksum would be blind; Miri (bounds/alignment) on the view path, debug and release builds.",
@@ -53,13 +53,13 @@ P = {
    text="Seeded turmoil simulations (partition, hold, release, repair at generated instants; sequential and concurrent requests, handler latency, client timeouts, clients that are clones of one configured client, requests through send(&msg) and through the by-value send_owned alternately) with a per-request history: reply matches request, handler ran at most once, errors only connection/timeout, completion within the timeout. Complements on real loopback TCP: many concurrent requests multiplexed over one channel, replies matched to requests; and the same history checker (incl. handler errors with large messages, which must arrive as themselves) behind a TCP forwarder that cuts (FIN/RST) or stalls connections at seeded moments, also in the middle of a reply body (handler ran at most once, errors only connection/timeout, answer within timeout + a generous real-time bound judged only when the process' own scheduling lag was small). Thorough adds ThreadSanitizer on the multiplex workload.",
    note="datacake-rpc's own `simulation` feature; bodies <= 100 B because of a turmoil 0.4.0 defect", ref="§5 C14"),
  "C15": dict(cat="exploration", technique="runtime monitoring: selection oracle over all layouts <= 4x4, positions, levels and prior-selection histories (executed exhaustively)",
-   text="Every layout of 1-4 DCs x 1-4 nodes, every local position, level and history of <=2 prior selections through the public NodeSelector trait, plus membership-update sequences through the real selector actor and snapshot sequences through the real membership WATCHER that feeds it (replacement with unchanged counts, data-centre moves); result must be distinct live non-local peers of the required count, NotEnoughNodes only when too few exist.",
+   text="Every layout of 1-4 DCs x 1-4 nodes, every local position, level and history of <=2 prior selections through the public NodeSelector trait, plus membership-update sequences through the real selector actor and snapshot sequences through the real membership WATCHER that feeds it (15 % of the updates meet a backlog of 150 queued selection requests, more than the actor's queue holds) (replacement with unchanged counts, data-centre moves); result must be distinct live non-local peers of the required count, NotEnoughNodes only when too few exist.",
    note="hook H3 for the actor part", ref="§5 C15"),
  "C16": dict(cat="exploration", technique="runtime monitoring: fold-the-deltas oracle over all snapshot sequences, subscription points and read placements",
    text="All membership snapshot sequences to length 4 over 3 ids sharing a pool of 3 addresses (34 states) driven through the real watcher task, every subscription point and slow-reader placement; folded deltas must equal the last snapshot at quiescence. End to end: real nodes join, leave and change address, and the replication layer's addressed peers (task distributor) and polled peers (repair poller, watched at the transport over two quiescent cycles after a node joined and left / flapped / moved) are compared with the live membership; the selector as fed by the watcher is judged after every published change; membership changes handed over DURING a burst of 100..10 000 writes inside one batch window (the distributor's queue full of mutations) must still take effect for the next write.",
    note="hook H3; synchronisation by awaiting the watcher's output; three recorded findings (lossy delta channel) keyed by signature", ref="§5 C16"),
  "C17": dict(cat="exploration", technique='runtime monitoring + sanitizers: map reference model over generated Storage call sequences with close/reopen; ASan and valgrind memcheck over the FFI backends',
-   text="SQLite (file, memory), LMDB and MemStore driven with generated contract-conforming call sequences (extreme ids, empty/large payloads, tombstone-first, duplicates, bulk calls of 20..1600 items - also naming an id twice) against a map model compared after every call (full comparison, or list-first / partial reads so that a read cannot mask a later one), reopen after random prefixes. LMDB sequences run in child processes (a reproducible crash is a violation). Thorough: the same workload under AddressSanitizer and under valgrind memcheck (the C libraries ASan does not instrument).",
+   text="SQLite (file, memory), LMDB and MemStore driven with generated contract-conforming call sequences (keyspace names with unicode / spaces, number-like names equal as numbers but different as text, names differing in case only; keyspaces first touched by a point lookup in a lifetime of the opened store; extreme ids, empty/large payloads, tombstone-first, duplicates, bulk calls of 20..1600 items - also naming an id twice) against a map model compared after every call (full comparison, or list-first / partial reads so that a read cannot mask a later one), reopen after random prefixes. LMDB sequences run in child processes (a reproducible crash is a violation). Thorough: the same workload under AddressSanitizer and under valgrind memcheck (the C libraries ASan does not instrument).",
    note="keyspace-list rule relaxed where the contract is silent", ref="§5 C17"),
  "C18": dict(cat="exploration", technique="runtime monitoring: lost-update checker over concurrent first uses of a keyspace; ThreadSanitizer on the same workload (thorough)",
    text="k tasks concurrently get-or-create a fresh keyspace - or two or three DIFFERENT fresh keyspaces at once - through every entry point and send one acknowledged mutation each (puts and deletes; group, consistency service incl. the distributor's batch message, state request followed by a repair write); a second scenario races first uses against the node's own repair from a peer holding the names; a third starts REAL nodes (the library's own create()) on slow pre-populated storage while a peer's first write for a persisted keyspace arrives; the set a later lookup serializes must contain all k, and the keyspace must be advertised by get_keyspace_info with a stamp covering them; creation counter observes overlap.",
